@@ -24,7 +24,7 @@ fn expect(method: &str, params: &Value) -> Result<Value, i64> {
 	match handler_model(method, Some(params), None) {
 		Want::Result(v) => Ok(v),
 		Want::Err(c) => Err(c[0]),
-		Want::AnyResult => Ok(Value::Null),
+		Want::AnyResult | Want::AnyResultOrErr(_) => Ok(Value::Null),
 	}
 }
 
